@@ -474,9 +474,9 @@ func (m *ConnectMessage) encodeMessage(dst []byte) (int, error) {
 		}
 	}
 
-	// According to the 3.1 spec, it's possible that the usernameFlag is set,
-	// but the username string is missing.
-	if m.UsernameFlag() && len(m.username) > 0 {
+	// A set flag announces the field: it is written even when it is empty (the
+	// decoder still tolerates a 3.1 peer that leaves it out).
+	if m.UsernameFlag() {
 		n, err = writeLPBytes(dst[total:], m.username)
 		total += n
 		if err != nil {
@@ -486,7 +486,7 @@ func (m *ConnectMessage) encodeMessage(dst []byte) (int, error) {
 
 	// According to the 3.1 spec, it's possible that the passwordFlag is set,
 	// but the password string is missing.
-	if m.PasswordFlag() && len(m.password) > 0 {
+	if m.PasswordFlag() {
 		n, err = writeLPBytes(dst[total:], m.password)
 		total += n
 		if err != nil {
@@ -620,14 +620,14 @@ func (m *ConnectMessage) msglen() int {
 	// Add the username length
 	// According to the 3.1 spec, it's possible that the usernameFlag is set,
 	// but the user name string is missing.
-	if m.UsernameFlag() && len(m.username) > 0 {
+	if m.UsernameFlag() {
 		total += 2 + len(m.username)
 	}
 
 	// Add the password length
 	// According to the 3.1 spec, it's possible that the passwordFlag is set,
 	// but the password string is missing.
-	if m.PasswordFlag() && len(m.password) > 0 {
+	if m.PasswordFlag() {
 		total += 2 + len(m.password)
 	}
 
